@@ -1,5 +1,5 @@
 (* The statements of Properties/C01.v assembled from Node/Gov.v, Node/GovProofs.v and Node/Witness.v. *)
-From NG Require Import Common.Tactics Tokens.Model Tokens.Inv Tokens.OpProofs Node.Gov Node.GovProofs Node.Witness.
+From NG Require Import Common.Tactics Tokens.Model Tokens.Inv Tokens.OpProofs Node.Gov Node.GovProofs Node.Restart Node.Witness.
 Open Scope Z_scope.
 
 Lemma cache_coherent cfg : cfg_wf cfg -> fix_block_dirty cfg = true -> fix_gpv_drop cfg = true ->
@@ -16,6 +16,18 @@ Proof.
   pose proof (cache_coherent cfg CW F7 F23 CS bs OK) as C.
   exact (conj (coherent_obs cfg _ C) (conj (reinit_sto cfg _) (reinit_coh cfg CS _ C))).
 Qed.
+
+Lemma restart_transparent_full cfg : cfg_wf cfg -> fix_block_dirty cfg = true -> fix_gpv_drop cfg = true ->
+  0 < csize cfg -> forall bs bs', blocks_ok cfg bs -> blocks_ok cfg bs' ->
+  sto (fold_left (step cfg) bs' (reinit cfg (reach cfg bs))) = sto (fold_left (step cfg) bs' (reach cfg bs))
+  /\ obs cfg (fold_left (step cfg) bs' (reinit cfg (reach cfg bs))) = obs cfg (fold_left (step cfg) bs' (reach cfg bs)).
+Proof. intros CW F7 F23 CS bs bs' OK OK'. exact (restart_transparent cfg CW F7 F23 CS bs bs' OK OK'). Qed.
+
+Lemma restarts_transparent_full cfg : cfg_wf cfg -> fix_block_dirty cfg = true -> fix_gpv_drop cfg = true ->
+  0 < csize cfg -> forall es, blocks_ok cfg (gblocks es) ->
+  sto (fold_left (gstep cfg) es (genesis cfg)) = sto (reach cfg (gblocks es))
+  /\ obs cfg (fold_left (gstep cfg) es (genesis cfg)) = obs cfg (reach cfg (gblocks es)).
+Proof. intros CW F7 F23 CS es OK. exact (restarts_transparent cfg CW F7 F23 CS es OK). Qed.
 
 Lemma cache_coherent_refuted_F7 :
   let cfg := w_cfg false true in
